@@ -99,6 +99,10 @@ def grad(spec, y, u):
     if n == "SqrtQuadratic":
         r = u - y
         return r / np.linalg.norm(r)
+    if n == "Pinball":                       # a subgradient (kink at zero residual)
+        q = spec["quantile_level"]
+        r = y - u
+        return np.where(r > 0, -q, np.where(r < 0, 1 - q, 0.0))
     raise KeyError(n)
 
 
